@@ -50,6 +50,9 @@ theorem recvLoop_spec (size : Nat) (script : List Ev) :
       | retryable => exact ih data stream hle
       | fatal => exact ⟨data, rfl, trivial⟩
       | timeout => exact ⟨data, rfl, trivial⟩
+      | partialFail k r => cases r with
+        | true => exact ih data stream hle
+        | false => exact ⟨data, rfl, trivial⟩
     · rw [if_neg h]
       have : data.length = size := by omega
       simp only [recvFinish, this, if_true]; exact ⟨data, rfl, rfl, this⟩
@@ -77,6 +80,9 @@ theorem recvWaitall_spec (size : Nat) (script : List Ev) :
     | retryable => exact ih stream
     | fatal => exact ⟨[], rfl, trivial⟩
     | timeout => exact ⟨[], rfl, trivial⟩
+    | partialFail k r => cases r with
+      | true => exact ih stream
+      | false => exact ⟨[], rfl, trivial⟩
 
 theorem receive_spec (waitall : Bool) (size : Nat) (stream : Bytes) (script : List Ev) :
     ∃ got, stream = got ++ (receive waitall size stream script).2.1 ∧
@@ -130,6 +136,7 @@ def Benign : List Ev → Prop
   | [] => True
   | .deliver k :: rest => 0 < k ∧ Benign rest
   | .retryable :: rest => Benign rest
+  | .partialFail _ true :: rest => Benign rest
   | _ :: _ => False
 
 def deliveries : List Ev → Nat
@@ -178,6 +185,12 @@ theorem recvLoop_total (size : Nat) (script : List Ev) :
         exact ih data stream hb hle hs hd
       | fatal => simp [Benign] at hb
       | timeout => simp [Benign] at hb
+      | partialFail k r => cases r with
+        | true =>
+          simp only [Benign] at hb
+          simp only [deliveries] at hd
+          exact ih data stream hb hle hs hd
+        | false => simp [Benign] at hb
     · rw [if_neg h]
       have : data.length = size := by omega
       simp only [recvFinish, this, if_true]; exact ⟨data, rfl⟩
@@ -235,6 +248,9 @@ theorem sendLoop_spec (script : List Ev) :
       | retryable => exact ih data acc
       | fatal => exact ⟨[], by simp, List.nil_prefix, fun h => by cases h⟩
       | timeout => exact ⟨[], by simp, List.nil_prefix, fun h => by cases h⟩
+      | partialFail k r => cases r with
+        | true => exact ih data acc
+        | false => exact ⟨[], by simp, List.nil_prefix, fun h => by cases h⟩
 
 /-- **C17_send_exact / C17_send_prefix.**  Whatever the script of partial writes and retryable
     errors, the bytes accepted by the peer are a prefix of the buffer, in order, each byte at most
@@ -254,6 +270,7 @@ theorem C17_send (blocking : Bool) (data : Bytes) (script : List Ev) :
       | retryable => exact ⟨List.nil_prefix, fun h => by cases h⟩
       | fatal => exact ⟨List.nil_prefix, fun h => by cases h⟩
       | timeout => exact ⟨List.nil_prefix, fun h => by cases h⟩
+      | partialFail k r => exact ⟨List.take_prefix _ _, fun h => by cases h⟩
   | false =>
     simp only [Bool.false_eq_true, if_false]
     obtain ⟨sent, h1, h2, h3⟩ := sendLoop_spec script data []
@@ -294,6 +311,12 @@ theorem C17_send_total (script : List Ev) :
         exact ih data acc hb hd
       | fatal => simp [Benign] at hb
       | timeout => simp [Benign] at hb
+      | partialFail k r => cases r with
+        | true =>
+          simp only [Benign] at hb
+          simp only [deliveries] at hd
+          exact ih data acc hb hd
+        | false => simp [Benign] at hb
 
 /-! ### obligations about facts extracted from the current source (PyroModel/Gen/C17.lean) -/
 
@@ -325,5 +348,7 @@ example : Benign [.deliver 2, .retryable, .deliver 1, .deliver 9, .deliver 1, .d
 example : send false [1,2,3,4] [.deliver 1, .retryable, .deliver 0, .deliver 7]
     = (.ok, [1,2,3,4], []) := by decide
 example : send false [1,2,3,4] [.deliver 1, .fatal] = (.closed, [1], []) := by decide
+-- blocking sendall that transmitted 2 bytes and then failed: an error, and the peer holds a prefix
+example : send true [1,2,3,4] [.partialFail 2 true] = (.closed, [1,2], []) := by decide
 
 end Pyro.C17
